@@ -335,6 +335,12 @@ let gen_db r ~oid ~name ~nseq ~corrupt : dbase * (int * relfile) list =
   let nother = rint r 6 in
   let n = nseq + nother in
   let fns = gen_oids r n and oids = gen_oids r n and names = gen_names r n in
+  (* relation names are unique per schema only: sometimes two or three relations (sequences among them) share a name, as
+     per-tenant schemas each owning "orders_id_seq" do; every one of them must be listed (seeded change C20-5) *)
+  let names = if n >= 2 && rint r 3 = 0 then begin
+      let a = Array.of_list names in
+      for _ = 1 to 1 + rint r 2 do a.(rint r n) <- a.(rint r n) done;
+      Array.to_list a end else names in
   let kinds = shuffle r (List.init n (fun i -> if i < nseq then "S" else pick r other_kinds)) in
   let rels = List.mapi (fun i kind ->
       let q, _ = gen_seq ~small:true r in
